@@ -37,6 +37,16 @@ func (sig Multi[T]) ToBytes() []byte {
 	return b
 }
 
+// EntryLengths returns the length in bytes of each component signature, in order. ToBytes concatenates
+// the components without delimiters, so the bytes alone do not say where one component ends.
+func (sig Multi[T]) EntryLengths() []int {
+	lengths := make([]int, 0, len(sig))
+	for _, signature := range sig {
+		lengths = append(lengths, len(signature.ToBytes()))
+	}
+	return lengths
+}
+
 // Participants returns the IDs of replicas who participated in the threshold signature.
 func (sig Multi[T]) Participants() hotstuff.IDSet {
 	return sig
